@@ -11,6 +11,7 @@ import Heathcliff.Proofs.C20M
 import Heathcliff.Proofs.C20N
 import Heathcliff.Proofs.C20O
 import Heathcliff.Proofs.GenAppC20
+import Heathcliff.Proofs.GenAppEnc
 
 /- Property C20: homomorphic matrix products and convolutions equal plaintext ones, all shapes.
    Property theorems only (proofs are the helper lemmas of Heathcliff/Proofs/C20*.lean). -/
@@ -434,6 +435,16 @@ theorem gen_cv_terms_of_new : type_of% @HC.ga_cv_terms_of_new := @HC.ga_cv_terms
 /-- `Conv2dHelper::get_total_batch_size`, generated = `CHelper.totalBatch` (the group count `encode_inputs_*` / `decrypt_outputs_*` iterate over) -/
 theorem gen_cv_total_batch_eq : type_of% @HC.ga_cv_total_batch_eq := @HC.ga_cv_total_batch_eq
 
+/-- second round — positions written by the encoders (fragments of `encode_weight_small_bfv` / `encode_inputs_bfv`; plan = position, source
+    index, …): generated = `wPos` / `inPos` with the model's source indices -/
+theorem gen_mm_weight_positions_eq : type_of% @HC.ga_mm_weight_positions_eq := @HC.ga_mm_weight_positions_eq
+theorem gen_mm_input_positions_eq : type_of% @HC.ga_mm_input_positions_eq := @HC.ga_mm_input_positions_eq
+/-- positions READ by `decrypt_outputs_bfv` (non-packed branch, one polynomial): generated (destination, position) pairs = `outPos` -/
+theorem gen_mm_output_positions_eq : type_of% @HC.ga_mm_output_positions_eq := @HC.ga_mm_output_positions_eq
+/-- ... and the model's block encoders (the ones `gen_cheetah_matmul_search` runs) ARE the scatter of the generated plan -/
+theorem gen_encWeightSmall_plan : type_of% @HC.ga_encWeightSmall_plan := @HC.ga_encWeightSmall_plan
+theorem gen_encInputBlock_plan : type_of% @HC.ga_encInputBlock_plan := @HC.ga_encInputBlock_plan
+
 /-- **composed with `block_search_sound`**: the GENERATED search returns admissible blocks for every admissible shape -/
 theorem gen_mm_new_sound : type_of% @HC.ga_mm_new_sound := @HC.ga_mm_new_sound
 theorem gen_mm_new_pack_sound : type_of% @HC.ga_mm_new_pack_sound := @HC.ga_mm_new_pack_sound
@@ -453,6 +464,8 @@ example : (GenApp.cv_new 1 1 1 40 4 3 3 64 .cipherPlain).map ga_toCHelper = .ok 
 example : GenApp.mm_output_terms ⟨3, 4, 2, 3, 1, 2, 8, .cipherPlain, false⟩ = .ok [0, 1, 2, 3, 4, 5] := by rfl
 example : GenApp.cv_output_terms ⟨1, 1, 1, 4, 4, 3, 3, 16, 1, 1, 1, 4, 4, .cipherPlain⟩ = .ok [10, 11, 14, 15] := by rfl
 example : GenApp.cv_total_batch ⟨1, 1, 1, 40, 4, 3, 3, 64, 1, 1, 1, 16, 4, .cipherPlain⟩ = .ok 3 := by rfl
+example : GenApp.mm_weight_positions ⟨3, 4, 2, 3, 1, 2, 8, .cipherPlain, false⟩ 1 2 0 2 = .ok [0, 2, 1, 3] := by rfl
+example : GenApp.mm_input_positions ⟨3, 4, 2, 3, 1, 2, 8, .cipherPlain, false⟩ 0 3 1 2 = .ok [0, 1, 2, 5, 4, 9] := by rfl
 example (x w : Nat → ℤ) := gen_cheetah_matmul_search 3 4 2 8 .cipherPlain 0 0 (by decide) (by decide) (by decide) (by decide)
   (by decide) x w
 example (x w : Nat → ℤ) := gen_conv2d_search ⟨2, 3, 2, 6, 5, 3, 2⟩ 64 .cipherPlain (by decide) (by decide) (by decide) (by decide)
